@@ -436,6 +436,15 @@ def pattern_programs():
         return F.sum(e * F.unsqueeze(T["c"], 0)) * 0.5 + F.sum(f_ * T["b"]) + F.sum(T["b"][[0, 0]][:, [1, 1, 2]])
     for fl in [(True, True, True), (True, False, False), (False, True, True)]:
         add("repeated_reads_by_one_index", [A(fl[0]), Bb(fl[1]), C(fl[2])], lookup, requires_grad=list(fl))
+
+    # ... the same position read twice under DIFFERENT spellings (a non-negative and a negative index), as list, tuple and array index
+    def lookup_alias(T, K):
+        e = T["a"][[0, -2, 1]]                                    # rows 0, 0, 1 of the (2,3) operand
+        f_ = T["a"][:, np.array([-1, 2, 0])]                      # columns 2, 2, 0
+        h = T["c"][[1, -2, -3, 0]]                                # elements 1, 1, 0, 0 of the (3,) operand
+        return F.sum(e * T["c"]) + F.sum(f_ * T["b"]) * 2.0 + F.sum(h * h) + F.sum(T["b"][(0, -2), :])
+    for fl in [(True, True, True), (True, False, True)]:
+        add("repeated_reads_under_different_spellings", [A(fl[0]), Bb(fl[1]), C(fl[2])], lookup_alias, requires_grad=list(fl))
     # a stateful building block used again (in another mode) between the forward and the backward of the first use: backward of the first
     # result is still the derivative of the function that WAS computed (saved operands must not be overwritten by later forwards)
     def bn_between(first_eval):
